@@ -129,14 +129,19 @@ Qed.
 Definition SMALL_FUEL : nat := 400.
 
 (* the loop ends within 400 iterations on every matrix with at most 2 rows, at most 3 columns
-   and entries in [-2,2], and on every single equation in at most 4 unknowns with
-   coefficients in [-3,3] (complete sweeps, evaluated by the kernel) *)
+   and entries in [-2,2], on every single equation in at most 4 unknowns with coefficients
+   in [-3,3], and on every matrix up to 3 x 3 or 2 x 4 with entries in {-1,0,1}
+   (complete sweeps, evaluated by the kernel) *)
 Theorem lde_terminates_small A : wf_mat A ->
   ((m_p A <= 2)%nat /\ (m_q A <= 3)%nat /\ bounded 2 A) \/
-  ((m_p A <= 1)%nat /\ (m_q A <= 4)%nat /\ bounded 3 A) ->
+  ((m_p A <= 1)%nat /\ (m_q A <= 4)%nat /\ bounded 3 A) \/
+  ((m_p A <= 3)%nat /\ (m_q A <= 3)%nat /\ bounded 1 A) \/
+  ((m_p A <= 2)%nat /\ (m_q A <= 4)%nat /\ bounded 1 A) ->
   exists B, homogeneous_lde SMALL_FUEL A = Ok B.
 Proof.
-  intros Hwf [[HP [HQ Hb]]|[HP [HQ Hb]]].
+  intros Hwf [[HP [HQ Hb]]|[[HP [HQ Hb]]|[[HP [HQ Hb]]|[HP [HQ Hb]]]]].
   - apply (sweep_sound SMALL_FUEL 2 3 2); [vm_compute; reflexivity|assumption..].
   - apply (sweep_sound SMALL_FUEL 1 4 3); [vm_compute; reflexivity|assumption..].
+  - apply (sweep_sound SMALL_FUEL 3 3 1); [vm_compute; reflexivity|assumption..].
+  - apply (sweep_sound SMALL_FUEL 2 4 1); [vm_compute; reflexivity|assumption..].
 Qed.
